@@ -62,6 +62,14 @@ CHECKS = {
          "PARTIAL BY NATURE. Lean theorems: scalar division is exact and inverts scalar multiplication; diag(y) acts as the Hadamard product (so the system solved is y*q = x entrywise); the 3-index kernels of _division.py equal the C12 kernels on the diagonal embedding of the divisor core, hence the C12 Galerkin theorems transfer. "
          "Tie: division kernels compared exactly with the models; ||q*y - x|| <= C·tol·||x|| (kind K) MONITORED for x/y, s/y, elementwise_divide with/without preconditioner and guess (C = 10).",
          TB + "residual bound only monitored", "§5 C13"),
+ "C14": ("proof",
+         "Index safety at proof level, quality PARTIAL BY NATURE. Lean theorems over the index-bookkeeping model: every update of the left/right index sets by a decoded pivot (np.unravel_index) keeps every multi-index inside its mode sizes; every row of every eval_index matrix has length d and column k in [0, N[k]); lifted by an invariant over the exact loop schedule of dmrg_cross (init pass, then LR/RL sweeps, any number of sweeps, any order d) to ALL function calls of every run, given only that _maxvol returns row numbers below the number of rows (dmrg_cross_calls_inRange). "
+         "Tie: every index matrix handed to the user function and every index-set update observed on real runs is replayed through the Lean model and compared EXACTLY (≈200 events per run); the oracle checks dtype, shape M×d, column ranges, and for function_interpolate that every value handed to the function is an actual entry of the argument tensors. Approximation quality (kind K) is MONITORED (C = 50).",
+         TB + "_maxvol's pivot range is an assumption on torch's LU (checked per call by the range oracle); approximation quality only monitored (known finding for mostly-zero targets)", "§5 C14"),
+ "C17": ("proof",
+         "PARTIAL BY NATURE. Lean theorems about the C++ rank selection (counting-down loop of cpp/ortho.h): rank in [1,len] and discarded energy < eps² for eps>0, it is the least rank with strictly smaller tail, it coincides with the Python rank_chop except at exact ties (where it keeps one more value) and Python's rank <= C++'s; documented difference at eps <= 0. "
+         "Tie: the extension is rebuilt from /repo/cpp on every source change (plus a 5-line verification-only shim exposing rank_chop) and C++ rank_chop is compared exactly with the model; both backends are run on the same systems / products (all preconditioners, with/without guess): same inputs accepted/rejected, both satisfy the C11/C12 contracts, mutual residual distance within them (MONITORED, kind K).",
+         TB + "C++ solver internals other than rank_chop are not modelled; built with -std=c++20; accuracy contracts monitored", "§5 C17"),
  "C15": ("proof",
          "Lean theorems: for every well-typed expression over {var, +, -, *, unary -, scalar *, scalar +, A@x} with a scalar head in {sum, dot, norm², entry, bilinear form, sums/products of those}, TT evaluation equals dense evaluation over ANY commutative ring; instantiated at dual numbers a+b·eps (carrier and operations are exactly the driver's) value AND derivative agree, i.e. every partial derivative w.r.t. every core entry of every operand equals the dense one (grad_eq_dense). "
          "Tie: random programs of depth 1..3 (also with kron, cat, pad, mprod, partial sums, slicing inside) are differentiated by torch autograd through the real torchtt (grad.grad / grad_list / watch variants) and compared EXACTLY, entry by entry, with the model's dual-number evaluation and with an independent dense autograd graph.",
@@ -120,13 +128,13 @@ def main():
         })
     man = {
         "version": 1,
-        "setup_cmd": "cd lean && lake build",
+        "setup_cmd": "cd lean && lake build && cd .. && /venv/bin/python harness/build_cpp.py",
         "hooks": {"guard": "TORCHTT_VERIF",
                   "enable": "no source hooks are needed: all observation is from outside (module attribute wrapping, version counters, storage pointers); the variable is not read by /repo",
                   "baseline_off_cmd": "cd /repo && /venv/bin/python -m pytest -ra -q -p no:cacheprovider --timeout=900 --continue-on-collection-errors",
                   "source_commits": [], "add_only": True},
         "engines": [{"name": "lean-model+correspondence", "path": "harness/check.py", "serves_properties": sorted(k for k in CHECKS if k not in PENDING),
-                     "kind_free_text": "Lean 4 theorems about hand-written executable models (lean/TTModel), tied to /repo on every run by an exact differential execution of the models (lake env lean --run TTModel/Driver.lean) against the real torchtt, plus the property's own dense oracle on every case"}],
+                     "kind_free_text": "Lean 4 theorems about hand-written executable models (lean/TTModel), tied to /repo on every run by an exact differential execution of the models (lake env lean --run MainDriver.lean / MainAD.lean) against the real torchtt, plus the property's own dense oracle on every case"}],
         "checks": checks,
         "not_applicable": [{"property_id": k, "reason": v} for k, v in sorted(NOT_YET.items()) if k not in CHECKS or k in PENDING],
         "notes": "fix: commits in /repo are listed in known_findings.json (kind=fixed); unrepaired defects are kind=finding",
